@@ -17,7 +17,10 @@ use tokio::net::TcpStream;
 
 pub struct Connection {
     pub addr: String,
+    #[cfg(not(feature = "verif"))]
     socket: Option<TcpStream>,
+    #[cfg(feature = "verif")]
+    socket: Option<crate::verif::Sock>,
     buffer: BytesMut,
 }
 
@@ -30,9 +33,27 @@ impl Connection {
         }
     }
 
+    #[cfg(not(feature = "verif"))]
     pub fn with_socket(&mut self, socket: TcpStream) -> &mut Self {
         self.socket = Some(socket);
         self
+    }
+
+    #[cfg(feature = "verif")]
+    pub fn with_socket(&mut self, socket: TcpStream) -> &mut Self {
+        self.socket = Some(crate::verif::Sock::Tcp(socket));
+        self
+    }
+
+    #[cfg(feature = "verif")]
+    pub fn with_mem(&mut self, mem: tokio::io::DuplexStream) -> &mut Self {
+        self.socket = Some(crate::verif::Sock::Mem(mem));
+        self
+    }
+
+    #[cfg(feature = "verif")]
+    pub fn verif_buffered(&self) -> usize {
+        self.buffer.len()
     }
 
     pub async fn send_frame(&mut self, frame: &Frame) -> Result<(), Box<dyn std::error::Error>> {
@@ -58,6 +79,8 @@ impl Connection {
         msg: &T,
     ) -> Result<(), Box<dyn std::error::Error>> {
         if let Some(socket) = self.socket.as_mut() {
+            #[cfg(feature = "verif")]
+            crate::verif::on_send(&self.addr, msg.data().as_slice());
             socket.write_all(msg.data().as_slice()).await?;
         }
 
@@ -72,6 +95,8 @@ impl Connection {
 
             match self.socket.as_mut() {
                 Some(socket) => {
+                    #[cfg(feature = "verif")]
+                    crate::verif::on_recv_wait(&self.addr, self.buffer.len());
                     let n = match socket.read_buf(&mut self.buffer).await {
                         Err(_) => return Err(Error::CantReadFromSocket),
                         Ok(n) => n,
